@@ -194,6 +194,9 @@ public:
       I.on_event(kind, a, b, x, y);
     }
   }
+  virtual void on_atomic(const void *addr, int op, long pre, long post) {
+    I.on_atomic(addr, op, pre, post);
+  }
 };
 
 class ERhdEngine : public Engine {
@@ -390,6 +393,7 @@ public:
       c.threads = std::min(c.threads, 8);
       c.diffuse_rhd = r.chance(0.4);
       c.rad_mode = r.chance(0.2) ? 1 : 0;
+      c.tight_pools = c.threads > 1 && r.chance(0.35);
     }
     if (prop == "C12") {
       // widen over optional components and run modes
@@ -441,14 +445,7 @@ public:
     if (prop == "C14")
       return execute_c14(c);
     const std::string dir = scratch_dir();
-    const std::string pf = c.write_files(dir);
-    scrub_memory(0xA5);
-    Ledger L;
-    L.lay.init(c);
-    L.want_reference = (prop == "C10");
-    L.want_conservation = (prop == "C04");
-    ion::LedgerT< HydroDensitySubGrid > IL;
-    {
+    auto init_ion_ledger = [&](ion::LedgerT< HydroDensitySubGrid > &X) {
       ion::Cfg ic;
       for (int k = 0; k < 3; ++k) {
         ic.ncell[k] = c.ncell[k];
@@ -460,8 +457,60 @@ public:
       ic.seed = c.seed;
       ic.packets = c.packets;
       ic.threads = c.threads;
-      IL.lay.init(ic);
-      IL.record_segments = false;
+      X.lay.init(ic);
+      X.record_segments = false;
+    };
+    bool tight = false;
+    if (prop == "C01" && c.tight_pools && c.nbuffers == 0 && c.ntasks == 0 &&
+        !c.restart_midway) {
+      // measuring run (see E-ION): same case and schedule with ample pools
+      const std::string pf0 = c.write_files(dir);
+      scrub_memory(0xA5);
+      Ledger M;
+      M.lay.init(c);
+      ion::LedgerT< HydroDensitySubGrid > MI;
+      init_ion_ledger(MI);
+      BothLedgers mboth(M, MI);
+      run_begin(c.sched, &mboth);
+      int rc0 = -1;
+      const bool fin0 = guarded([&]() {
+        rc0 = run_rhd(pf0, c.threads,
+                      {"--number-of-steps", std::to_string(c.steps)});
+      });
+      run_end();
+      if (getenv("EION_DEBUG_POOLS"))
+        fprintf(stderr, "measuring run: fin %d rc %d failed %d/%d (%s) max buffers %ld tasks %ld\n",
+                (int)fin0, rc0, (int)M.failed, (int)MI.failed,
+                MI.violation.message.c_str(), MI.max_buffers_in_use, MI.max_tasks_in_use);
+      if (fin0 && rc0 == 0 && !M.failed && !MI.failed &&
+          MI.max_buffers_in_use > 0) {
+        const long safe_b = c.packets + 27 * c.total_subgrids() * 4 + 64;
+        const long safe_t = 18 * c.total_subgrids() + 6 * c.packets + 2000;
+        c.nbuffers = std::min(safe_b, 2 * MI.max_buffers_in_use + 32);
+        c.ntasks = std::min(safe_t, 18l * c.total_subgrids() +
+                                        2 * MI.max_tasks_in_use + 64);
+        tight = true;
+      } else if (!fin0) {
+        out.notes.push_back("measuring run for reduced pools did not finish: "
+                            "case skipped");
+        out.restart_worker = true;
+        out.hash = 0x9001;
+        out.stats = Json::object();
+        out.signature = Json::object();
+        return out;
+      }
+    }
+    const std::string pf = c.write_files(dir);
+    scrub_memory(0xA5);
+    Ledger L;
+    L.lay.init(c);
+    L.want_reference = (prop == "C10");
+    L.want_conservation = (prop == "C04");
+    ion::LedgerT< HydroDensitySubGrid > IL;
+    init_ion_ledger(IL);
+    if (tight) {
+      IL.cap_buffers = c.nbuffers;
+      IL.pool_margin = c.threads + 2;
     }
     BothLedgers both(L, IL);
     valgrind_mark();
@@ -506,6 +555,9 @@ public:
       message = L.violation.message;
     } else if (!finished && rs.inconclusive) {
       out.notes.push_back("run abandoned as inconclusive (total point cap)");
+    } else if (!finished && tight && (IL.pool_exhausted || IL.pools_full())) {
+      out.notes.push_back("run with reduced pools ran out of buffer or task "
+                          "slots under this schedule: inconclusive");
     } else if (!finished) {
       vclass = "nontermination";
       message = sfmt("hydro step %d did not end within the step budget (fair "
@@ -562,6 +614,11 @@ public:
       st["rad_packets_terminated"] = (long long)IL.done_total;
     }
     st[sfmt("policy_%d", c.sched.policy)] = 1;
+    if (tight) {
+      st["runs_with_reduced_pools"] = 1;
+      if (IL.total_buffers_taken > IL.cap_buffers)
+        st["runs_in_which_the_buffer_pool_wrapped"] = 1;
+    }
     st[sfmt("threads_%02d", c.threads)] = 1;
     int nper = 0, single_periodic = 0;
     for (int k = 0; k < 3; ++k) {
